@@ -106,3 +106,12 @@ func OutcomeClass(res string) string {
 	}
 	return "?"
 }
+
+// BigOf parses a decimal number (nil if malformed).
+func BigOf(s string) *big.Int {
+	n, ok := new(big.Int).SetString(s, 10)
+	if !ok {
+		return nil
+	}
+	return n
+}
